@@ -115,8 +115,11 @@ func isGooseErrorPanic(pn *ssa.Panic) bool {
 }
 
 // recovers reports whether f installs a deferred function that calls recover().
-func recovers(p *Prog, f *ssa.Function) bool {
-	found := false
+func recovers(p *Prog, f *ssa.Function) bool { return len(deferredRecoverers(p, f)) > 0 }
+
+// deferredRecoverers: the functions (closures or named) that f defers directly and that call recover().
+func deferredRecoverers(p *Prog, f *ssa.Function) []*ssa.Function {
+	var out []*ssa.Function
 	p.instrs(f, func(b *ssa.BasicBlock, i int, in ssa.Instruction) {
 		d, ok := in.(*ssa.Defer)
 		if !ok {
@@ -132,6 +135,7 @@ func recovers(p *Prog, f *ssa.Function) bool {
 		if cl == nil {
 			return
 		}
+		found := false
 		p.instrs(cl, func(b2 *ssa.BasicBlock, i2 int, in2 ssa.Instruction) {
 			if c, ok := in2.(*ssa.Call); ok {
 				if bi, ok := c.Call.Value.(*ssa.Builtin); ok && bi.Name() == "recover" {
@@ -139,8 +143,11 @@ func recovers(p *Prog, f *ssa.Function) bool {
 				}
 			}
 		})
+		if found {
+			out = append(out, cl)
+		}
 	})
-	return found
+	return out
 }
 
 // lenLowerBound derives the least length of the slice with key sk from the relations.
@@ -401,7 +408,7 @@ func c07Recover(p *Prog, r *Report, cg *callGraph, prefixed *ssa.Function) {
 			continue
 		}
 		okConv := false
-		for _, a := range f.AnonFuncs {
+		for _, a := range deferredRecoverers(p, f) {
 			p.instrs(a, func(b *ssa.BasicBlock, i int, in ssa.Instruction) {
 				if ta, ok := in.(*ssa.TypeAssert); ok && ta.CommaOk {
 					if n, ok := ta.AssertedType.(*types.Named); ok && n.Obj().Name() == "gooseError" {
